@@ -944,8 +944,11 @@ func (a *typedArrayObject) stringKeys(all bool, accum []Value) []Value {
 	if accum == nil {
 		accum = make([]Value, 0, a.length)
 	}
-	for i := 0; i < a.length; i++ {
-		accum = append(accum, asciiString(strconv.Itoa(i)))
+	// a detached buffer leaves no valid integer index
+	if a.viewedArrayBuf.ensureNotDetached(false) {
+		for i := 0; i < a.length; i++ {
+			accum = append(accum, asciiString(strconv.Itoa(i)))
+		}
 	}
 	return a.baseObject.stringKeys(all, accum)
 }
@@ -956,7 +959,7 @@ type typedArrayPropIter struct {
 }
 
 func (i *typedArrayPropIter) next() (propIterItem, iterNextFunc) {
-	if i.idx < i.a.length {
+	if i.idx < i.a.length && i.a.viewedArrayBuf.ensureNotDetached(false) {
 		name := strconv.Itoa(i.idx)
 		prop := i.a._getIdx(i.idx)
 		i.idx++
